@@ -14,6 +14,7 @@ import Driver.Scrypt
 import Driver.ShaCrypt
 import Driver.Backend
 import Driver.Libpass
+import Driver.Verify
 /-
 Line protocol driver: `<suite> <op> <args…>` per input line, one result line out.
 Compiled (`lean_exe modeldrv`); nothing imported here touches Mathlib.
@@ -36,6 +37,7 @@ def dispatch (line : String) : String :=
   | "shac" :: rest => Driver.ShaCrypt.handle rest
   | "backend" :: rest => Driver.Backend.handle rest
   | "lp" :: rest => Driver.Libpass.handle rest
+  | "vfy" :: rest => Driver.Verify.handle rest
   | _ => Driver.bad
 
 partial def loop (h : IO.FS.Stream) (out : IO.FS.Stream) : IO Unit := do
